@@ -845,3 +845,107 @@ Proof.
   cbv zeta. repeat split; vm_compute; repeat eexists.
 Qed.
 End CheckExamples.
+
+(* ================= Log Nice with an end LEFT IN PLACE by the repair of D10 ================= *)
+(* (helper hM-c17; proofs in Proofs/TicksLogNice2.v)
+   For a positive Log domain emin < emax whose Nice found level l and the candidate ends
+   nmn = b^(f 2^l), nmx = b^(la 2^l): mvlo / mvhi say whether Nice moved the lower / upper end
+   (log.go:233, 236: outwards only, and only to a positive finite float64 power), [a, c] is the
+   niced domain.  HYPOTHESES about an end that was LEFT IN PLACE (none about an end that moved):
+   its rounding-out decision was N_inside (the end lies within the slack of the power next to it),
+   and that three-valued decision, re-taken for the niced domain - with the other end's new
+   position in the ratio t and in mu - is not N_border ([decided]; first conjunct: this follows
+   from le_amb (log_exps b a c) = false, i.e. the check does not call the niced domain borderline).
+   Then  log_nice b emin emax o = (a, c)  and  Nice is IDEMPOTENT: log_nice b a c o = (a, c);
+   and if the candidate of an unmoved end lies strictly beyond it (the D10 situation: the end is
+   just inside the power), the first / last major tick of Ticks on [a, c] is nmn / nmx: the new
+   end itself for an end that moved, the power that the unmoved end is within the slack of
+   (N_inside for the niced domain) otherwise.
+   The hypothesis [decided] cannot be dropped IN THE MODEL: the re-taken decision can come out
+   N_border (mu depends on the bit lengths of the ends, so it is not monotone in the domain), the
+   model treats N_border as "not inside" and its second Nice then moves the end
+   (C17_log_nice_model_not_idempotent_refuted; the Go code is idempotent on that input, and the
+   check accepts either outcome there because le_amb = true).
+   Last conjunct: for idempotence alone it is enough that the rounding-out decision of every
+   unmoved end selects the same exponent for the niced domain, whatever the decision was. *)
+From MM Require Import Proofs.TicksLogNice2.
+Section LogNiceUnmoved.
+Local Open Scope Z_scope.
+Theorem C17_log_nice_idempotent_with_unmoved_end : forall b emin emax o l, 2 <= b -> (0 < emin)%Q -> (emin < emax)%Q ->
+  let e := log_exps b emin emax in
+  le_out_lo e < le_out_hi e -> log_count e true 0 <= MAXINT -> o_max o < MAXINT ->
+  find_level o (log_count e true) 0 = FL_ok l ->
+  let f := fst (log_first_last e true l) in let la := snd (log_first_last e true l) in
+  (la * 2 ^ l - f * 2 ^ l + 1 <= MAXINT) ->
+  let nmn := qpow b (f * 2 ^ l) in let nmx := qpow b (la * 2 ^ l) in
+  let mvlo := log_end_ok b (2 ^ l) f nmn && Qleb nmn emin in
+  let mvhi := log_end_ok b (2 ^ l) la nmx && Qleb emax nmx in
+  let a := if mvlo then nmn else emin in let c := if mvhi then nmx else emax in
+  let decided :=
+    (mvlo = false -> near emin (qpow b (ceil_log b emin)) (c / a) (log_mu a c) <> N_border) /\
+    (mvhi = false -> near (qpow b (floor_log b emax)) emax (c / a) (log_mu a c) <> N_border) in
+  (le_amb (log_exps b a c) = false -> decided) /\
+  ((mvlo = false -> near emin (qpow b (ceil_log b emin)) (emax / emin) (log_mu emin emax) = N_inside) ->
+   (mvhi = false -> near (qpow b (floor_log b emax)) emax (emax / emin) (log_mu emin emax) = N_inside) ->
+   decided ->
+   log_nice b emin emax o = (a, c) /\ log_nice b a c o = (a, c) /\
+   ((mvlo = false -> Qleb nmn emin = false) -> (mvhi = false -> Qleb emax nmx = false) ->
+    forall major minor, log_ticks b a c o = TR_ticks major minor ->
+    (exists rest, major = nmn :: rest) /\ (forall d, last major d = nmx) /\
+    (mvlo = true -> a = nmn) /\ (mvhi = true -> c = nmx) /\
+    (mvlo = false -> a = emin /\ near a nmn (c / a) (log_mu a c) = N_inside) /\
+    (mvhi = false -> c = emax /\ near nmx c (c / a) (log_mu a c) = N_inside))) /\
+  (* idempotence alone: it is enough that the rounding-out decision of each unmoved end selects the
+     same exponent for the niced domain (whatever the decision was) *)
+  ((mvlo = false -> isin3 (near emin (qpow b (ceil_log b emin)) (c / a) (log_mu a c)) =
+                    isin3 (near emin (qpow b (ceil_log b emin)) (emax / emin) (log_mu emin emax))) ->
+   (mvhi = false -> isin3 (near (qpow b (floor_log b emax)) emax (c / a) (log_mu a c)) =
+                    isin3 (near (qpow b (floor_log b emax)) emax (emax / emin) (log_mu emin emax))) ->
+   log_nice b emin emax o = (a, c) /\ log_nice b a c o = (a, c)).
+Proof. exact log_nice_idempotent_with_unmoved_end. Qed.
+Print Assumptions C17_log_nice_idempotent_with_unmoved_end.
+
+(* non-vacuity, lower end left in place: [10 (1 - 1e-12), 2000] base 10, Max 4: level 0, candidates
+   10 (> emin: stays, decision N_inside) and 10^4 (moves); the niced domain has no undecided
+   decision; Nice again: the same; Ticks: 10 .. 10^4.  Mirrored: [3, 1000 (1 + 1e-12)]. *)
+Example C17_log_nice_unmoved_end_example :
+  let emin := (999999999999 # 100000000000)%Q in let o := mkOpts 4 0 0 in
+  let e := log_exps 10 emin 2000 in
+  le_out_lo e < le_out_hi e /\ find_level o (log_count e true) 0 = FL_ok 0 /\ log_first_last e true 0 = (1, 4) /\
+  log_end_ok 10 1 1 10 && Qleb 10 emin = false /\ Qleb 10 emin = false /\
+  log_end_ok 10 1 4 10000 && Qleb 2000 10000 = true /\
+  near emin (qpow 10 (ceil_log 10 emin)) (2000 / emin) (log_mu emin 2000) = N_inside /\
+  le_amb (log_exps 10 emin 10000) = false /\
+  log_nice 10 emin 2000 o = (emin, 10000%Q) /\ log_nice 10 emin 10000 o = (emin, 10000%Q) /\
+  (exists mi, log_ticks 10 emin 10000 o = TR_ticks [10%Q; 100%Q; 1000%Q; 10000%Q] mi) /\
+  let emax := (1000000000001 # 1000000000)%Q in
+  let e2 := log_exps 10 3 emax in
+  find_level o (log_count e2 true) 0 = FL_ok 0 /\ log_first_last e2 true 0 = (0, 3) /\
+  log_end_ok 10 1 3 1000 && Qleb emax 1000 = false /\
+  near (qpow 10 (floor_log 10 emax)) emax (emax / 3) (log_mu 3 emax) = N_inside /\
+  le_amb (log_exps 10 1 emax) = false /\
+  log_nice 10 3 emax o = (1%Q, emax) /\ log_nice 10 1 emax o = (1%Q, emax) /\
+  (exists mi, log_ticks 10 1 emax o = TR_ticks [1%Q; 10%Q; 100%Q; 1000%Q] mi) /\
+  (* last conjunct: base 16, level forced to 8 (effective base 16^256 = 2^1024 beyond float64): the
+     upper candidate is not representable, the end 20000 stays although its decision is N_outside,
+     and it is N_outside again for the niced domain [1, 20000] *)
+  let o2 := mkOpts 3 8 8 in let e3 := log_exps 16 3 20000 in
+  find_level o2 (log_count e3 true) 0 = FL_ok 8 /\ log_first_last e3 true 8 = (0, 1) /\
+  log_end_ok 16 (2 ^ 8) 1 (qpow 16 256) = false /\
+  near (qpow 16 3) 20000 (20000 / 3) (log_mu 3 20000) = N_outside /\
+  near (qpow 16 3) 20000 (20000 / 1) (log_mu 1 20000) = N_outside /\
+  log_nice 16 3 20000 o2 = (1%Q, 20000%Q) /\ log_nice 16 1 20000 o2 = (1%Q, 20000%Q).
+Proof. vm_compute. repeat split; try reflexivity; eexists; reflexivity. Qed.
+
+(* THE EXACT MODEL IS NOT IDEMPOTENT where the re-taken decision is undecided: base 2, Max 6,
+   [(2^53 - 896451)/2^53, 3 2^100] (two float64 values): Nice leaves the lower end (N_inside, within
+   the slack below 1) and moves the upper one to 2^128; for [emin, 2^128] mu is larger (2^128 has more
+   bits than 3 2^100), the decision comes out N_border (le_amb = true), the model's second Nice
+   moves the lower end to 2^-32.  scale.Log.Nice on these float64 values: [emin, 2^128] both times. *)
+Example C17_log_nice_model_not_idempotent_refuted :
+  exists b mn mx o mn1 mx1, 2 <= b /\ (0 < mn)%Q /\ (mn < mx)%Q /\ 3 <= o_max o /\
+    log_nice b mn mx o = (mn1, mx1) /\ mn1 = mn /\ le_amb (log_exps b mn mx) = false /\
+    le_amb (log_exps b mn1 mx1) = true /\
+    log_nice b mn1 mx1 o = (qpow 2 (-32), mx1) /\ ~ (qpow 2 (-32) == mn1)%Q.
+Proof. exact log_nice_model_not_idempotent_refuted. Qed.
+End LogNiceUnmoved.
